@@ -23,7 +23,7 @@ import (
 
 func TestMain(m *testing.M) { stats.Main(m, "C18") }
 
-const rule = "rapid: payload kinds {plain JSON value, implements ID (incl. \"\"), implements Data (incl. nil), both} x Format {unset, json, text, invalid} x Source {url, nil, empty} x Schema {unset, url, empty} x Signer {nil, recording, failing} x listed/unlisted event type x predicate {nil,true,false,error} x event types with special characters; oracle = parse the stored document back (members, data JSON-equal to the payload/Data(), content type, schema, id, time), serialized decodes to exactly the bytes the signer was handed = the unsigned document, serialized_hmac = the signer's result, failing signer => error and nothing forwarded, unlisted types never signed; non-trivial = signed case with Data/ID payload, or failing signer on a listed type; distinct = case descriptor"
+const rule = "rapid: payload kinds {plain JSON value, implements ID (incl. \"\"), implements Data (incl. nil), both} x Format {unset, json, text, invalid} x Source {url, nil, empty} x Schema {unset, url, empty} x Signer {nil, recording (signatures with control / quote / non-printable characters), failing, panicking} x listed/unlisted event type x predicate {nil,true,false,error} x event types with special characters; oracle = parse the stored document back (members, data JSON-equal to the payload/Data(), content type, schema, id, time), serialized decodes to exactly the bytes the signer was handed = the unsigned document, serialized_hmac = the signer's result, failing signer => error and nothing forwarded, unlisted types never signed; non-trivial = signed case with Data/ID payload, or failing signer on a listed type; distinct = case descriptor"
 
 type idOnly struct {
 	V  interface{} `json:"v"`
@@ -75,6 +75,33 @@ func jsonEq(a, b []byte) bool {
 	return reflect.DeepEqual(va, vb)
 }
 
+// earlier keeps the documents of the last few events: a later Process call must not change what was stored
+// for an earlier event (buffers recycled between calls, ...).
+type earlierDoc struct {
+	ev   *eventlogger.Event
+	key  string
+	doc  []byte
+	desc string
+}
+
+var earlier []earlierDoc
+
+func rememberAndRecheck(ev *eventlogger.Event, key, desc string) string {
+	for _, old := range earlier {
+		got, ok := old.ev.Format(old.key)
+		if !ok || !bytes.Equal(got, old.doc) {
+			return fmt.Sprintf("the document stored for an EARLIER event changed after later Process calls: was %q, now %q (earlier case: %s)", old.doc, got, old.desc)
+		}
+	}
+	if doc, ok := ev.Format(key); ok {
+		earlier = append(earlier, earlierDoc{ev, key, append([]byte(nil), doc...), desc})
+		if len(earlier) > 8 {
+			earlier = earlier[1:]
+		}
+	}
+	return ""
+}
+
 func TestC18CloudEvents(t *testing.T) {
 	sec := stats.Sec("cloudevents", rule)
 	caseNo := 0
@@ -85,12 +112,14 @@ func TestC18CloudEvents(t *testing.T) {
 		format := rapid.SampledFrom([]cloudevents.Format{"", "", cloudevents.FormatJSON, cloudevents.FormatText, cloudevents.FormatText, "yaml"}).Draw(t, "format")
 		source := rapid.SampledFrom([]string{"url", "url", "url", "url", "nil", "empty", "blank"}).Draw(t, "source")
 		schema := rapid.SampledFrom([]string{"unset", "unset", "url", "empty", "blank"}).Draw(t, "schema")
-		signer := rapid.SampledFrom([]string{"nil", "ok", "ok", "ok", "fail", "fail"}).Draw(t, "signer")
+		signer := rapid.SampledFrom([]string{"nil", "ok", "ok", "ok", "fail", "fail", "panic"}).Draw(t, "signer")
+		// what a signature looks like is the signer's business: any valid UTF-8 string
+		sigTail := rapid.SampledFrom([]string{"", "", "", "\x1f<mac>", "\x7f", "\x00lead", "quote\"back\\slash", "\U000e0001", "<&>", "line\nbreak", "\u2028"}).Draw(t, "signatureTail")
 		et := rapid.SampledFrom(eventTypes).Draw(t, "eventType")
 		listed := rapid.Bool().Draw(t, "listed")
 		pred := rapid.SampledFrom([]string{"nil", "nil", "true", "false", "error", "true+error"}).Draw(t, "predicate")
 		created := time.Date(2026, 5, 17, 20, 34, 58, rapid.IntRange(0, 999999999).Draw(t, "nanos"), time.FixedZone("x", rapid.SampledFrom([]int{0, 3600, -5 * 3600}).Draw(t, "zone")))
-		desc := fmt.Sprintf("payload=%s(%s) format=%q source=%s schema=%s signer=%s listed=%v type=%q pred=%s", kind, d, format, source, schema, signer, listed, et, pred)
+		desc := fmt.Sprintf("payload=%s(%s) format=%q source=%s schema=%s signer=%s sigTail=%q listed=%v type=%q pred=%s", kind, d, format, source, schema, signer, sigTail, listed, et, pred)
 
 		dataVal := jsonval.Build(d)
 		twin := jsonval.Build(d)
@@ -146,7 +175,12 @@ func TestC18CloudEvents(t *testing.T) {
 		case "ok":
 			f.Signer = func(_ context.Context, b []byte) (string, error) {
 				signedInputs = append(signedInputs, append([]byte(nil), b...))
-				return fmt.Sprintf("sig-%d-%d", caseNo, len(b)), nil
+				return fmt.Sprintf("sig-%d-%d", caseNo, len(b)) + sigTail, nil
+			}
+		case "panic":
+			f.Signer = func(_ context.Context, b []byte) (string, error) {
+				signedInputs = append(signedInputs, append([]byte(nil), b...))
+				panic("harness signer panics")
 			}
 		case "fail":
 			f.Signer = func(_ context.Context, b []byte) (string, error) {
@@ -171,7 +205,21 @@ func TestC18CloudEvents(t *testing.T) {
 			f.Predicate = func(context.Context, interface{}) (bool, error) { predCalled = true; return true, predErr }
 		}
 		ev := &eventlogger.Event{Type: eventlogger.EventType(et), CreatedAt: created, Formatted: map[string][]byte{}, Payload: payload}
-		out, err := f.Process(context.Background(), ev)
+		var out *eventlogger.Event
+		var err error
+		panicked := false
+		func() {
+			defer func() {
+				if r := recover(); r != nil {
+					panicked = true
+					out, err = nil, fmt.Errorf("panic: %v", r)
+				}
+			}()
+			out, err = f.Process(context.Background(), ev)
+		}()
+		if panicked && signer != "panic" {
+			t.Fatalf("VIOLATION C18: Process panicked: %v\ncase: %s", err, desc)
+		}
 
 		invalid := format == "yaml" || source != "url" || schema == "empty" || schema == "blank" || kind == "idEmpty"
 		if invalid {
@@ -186,7 +234,9 @@ func TestC18CloudEvents(t *testing.T) {
 		if format == cloudevents.FormatText {
 			key = string(cloudevents.FormatText)
 		}
-		if mustSign && signer == "fail" {
+		if mustSign && (signer == "fail" || signer == "panic") {
+			// a signer that panics has failed too: the panic may propagate or be turned into an error, but the event
+			// must not be forwarded unsigned
 			if err == nil || out != nil {
 				t.Fatalf("VIOLATION C18: signing failed but the event was forwarded (event=%v err=%v)\ncase: %s", out != nil, err, desc)
 			}
@@ -350,7 +400,7 @@ func TestC18CloudEvents(t *testing.T) {
 			if signedIdx < 0 {
 				t.Fatalf("VIOLATION C18: serialized does not decode to bytes that were signed\ncase: %s", desc)
 			}
-			if mac != fmt.Sprintf("sig-%d-%d", caseNo, len(signedInputs[signedIdx])) {
+			if mac != fmt.Sprintf("sig-%d-%d", caseNo, len(signedInputs[signedIdx]))+sigTail {
 				t.Fatalf("VIOLATION C18: serialized_hmac %q is not the signer's result\ncase: %s", mac, desc)
 			}
 			// the signed bytes are the unsigned document: same members minus the two signature members
@@ -369,6 +419,9 @@ func TestC18CloudEvents(t *testing.T) {
 					t.Fatalf("VIOLATION C18: member %q differs between the signed bytes and the stored document\ncase: %s", k, desc)
 				}
 			}
+		}
+		if msg := rememberAndRecheck(carrier, key, desc); msg != "" {
+			t.Fatalf("VIOLATION C18: %s\ncase: %s", msg, desc)
 		}
 		cl := []string{"kind=" + kind, "signer=" + signer, fmt.Sprintf("listed=%v", listed), "format=" + string(format)}
 		sec.Case(mustSign && kind != "plain", desc, cl...)
